@@ -375,6 +375,18 @@ func (in *Interp) asLoc(v Val, what string) VLoc {
 	return l
 }
 
+// knownUnmodelled lists library names that exist in Perennial but that the
+// interpreter does not model: using them makes an evaluation inconclusive.
+// Any other unresolvable identifier is an error of the emitted text.
+func knownUnmodelled(name string) bool {
+	for _, p := range []string{"FS.", "grove_ffi.", "async_disk.", "time.", "rand.", "marshal.", "std.", "atomic.", "util.", "control.impl.", "lock.", "waitgroup.", "disk.", "slice.", "struct.", "string.", "encoding.", "prophecy."} {
+		if strings.HasPrefix(name, p) {
+			return true
+		}
+	}
+	return false
+}
+
 // builtin constants (Gallina identifiers that are values)
 func (in *Interp) evalGid(name string, env *Env, sc scope) Val {
 	if v, ok := env.Lookup("ty:" + name); ok {
@@ -405,7 +417,11 @@ func (in *Interp) evalGid(name string, env *Env, sc scope) Val {
 	if isPrim(name) {
 		return VBuiltin{name}
 	}
-	panic(unknownErr{"identifier " + name})
+	if knownUnmodelled(name) {
+		panic(unknownErr{"identifier " + name})
+	}
+	stuck("identifier %s is neither defined earlier in the file nor part of the GooseLang library known to the model", name)
+	panic("unreachable")
 }
 
 func (in *Interp) evalApp(e vread.App, env *Env, sc scope) Val {
